@@ -44,6 +44,7 @@ def h_ops(ctx, mods, shape):
         fail = {'at': tuple(shape['fail']), 'reason': ctx.bytes('reason', 2)}
     st = Std(ctx, maxdata=shape['maxdata'], monitor=mon, packetize=packetize, reorder=reorder, fail=fail)
     st.dev.eager = bool(shape.get('eager'))
+    st.dev.strict_causality = not shape.get('spec_order')
     st.truncate_recv = shape.get('truncate_recv')
     w = World(ctx, mods, st.dev, impl=shape['impl'])
     o = w.try_call('connect')
@@ -102,6 +103,9 @@ def shapes(tier, seed):
         # the device closes the stream in the middle of a pull (after a partial sync record)
         for cut in (3, 10, 13):
             out.append({'h': 'ops', 'impl': impl, 'maxdata': 4096, 'ops': [['pull', {'recs': [4, 2]}]], 'cuts': 0, 'judge': False, 'truncate_recv': cut})
+        # protocol.txt ordering only: a reply may even precede the OKAY for the request that caused it
+        for spec in (['pull', {'cb': 'rec'}], ['pull', {}], 'stat', 'list', ['push', {'size': 5000}]):
+            out.append({'h': 'ops', 'impl': impl, 'maxdata': 4096, 'ops': [spec], 'cuts': 1, 'reorder': True, 'spec_order': True, 'max_paths': 200000})
         # several streams open at once (generators stepped alternately): every interleaving, device order free
         out.append({'h': 'interleave', 'judge_results': False, 'impl': impl, 'gens': [[1, 1], [1]], 'pick': True})
         out.append({'h': 'interleave', 'judge_results': False, 'impl': impl, 'gens': [[1, 1], [1, 1]], 'pick': False})
